@@ -6,6 +6,7 @@ import (
 	"os"
 	"path/filepath"
 	"runtime"
+	"runtime/debug"
 	"strings"
 	"sync"
 	"time"
@@ -27,6 +28,7 @@ import (
 type c17twoHandler struct {
 	tag    string
 	before func() // called on the tracer goroutine right before the string of a traced openat is read
+	after  func() // … and right after it has been read
 	got    []string
 	mu     sync.Mutex
 }
@@ -43,6 +45,9 @@ func (h *c17twoHandler) Handle(c *ptracer.Context) ptracer.TraceAction {
 	h.mu.Lock()
 	h.got = append(h.got, s)
 	h.mu.Unlock()
+	if h.after != nil {
+		h.after()
+	}
 	c.SetReturnValue(-13)
 	return ptracer.TraceBan
 }
@@ -57,6 +62,9 @@ func c17twoTracers(x *mc.X) {
 	// scratch memory kept per scheduler context would hide behind the number of contexts: one context for this execution
 	old := runtime.GOMAXPROCS(1)
 	defer runtime.GOMAXPROCS(old)
+	// … and a pool would be emptied by the collector: no collection during this execution
+	gc := debug.SetGCPercent(-1)
+	defer debug.SetGCPercent(gc)
 	dir := tmpDir("c17two")
 	defer os.RemoveAll(dir)
 	aPath := filepath.Join(dir, "run-A", "private-of-A-"+strings.Repeat("a", 40))
@@ -64,7 +72,7 @@ func c17twoTracers(x *mc.X) {
 	aScript := "S " + aPath + "\nX 257 -100 @stm$0 0 0\nQ 0\n"
 	bArg := "$0"
 	if bKind == "unreadable-pointer" {
-		bArg = "@unmapped"
+		bArg = "16" // an address no mapping covers (a PROT_NONE page would still be readable for PTRACE_PEEKDATA)
 	}
 	bScript := "S " + bPath + "\nX 257 -100 " + bArg + " 0 0\nQ 0\n"
 
@@ -92,6 +100,14 @@ func c17twoTracers(x *mc.X) {
 		if when == "before-A's" {
 			runB()
 		}
+	}
+	hA.after = func() {
+		if when == "after-A's" {
+			runB()
+		}
+		mu.Lock()
+		phase = "done"
+		mu.Unlock()
 	}
 	ptracer.VerifVMRead = func() {
 		mu.Lock()
@@ -152,12 +168,6 @@ func c17twoTracers(x *mc.X) {
 		var fin func()
 		resA, fin = trace(aScript, hA, "A")
 		fin()
-		if when == "after-A's" {
-			mu.Lock()
-			phase = "done"
-			mu.Unlock()
-			close(bGo)
-		}
 		close(done)
 	}()
 	ok := withTimeout(3*horizon, func() { <-done; wg.Wait() })
